@@ -23,7 +23,15 @@ pub fn run(args: &[String]) {
         let back = rng.chance(0.35);
         let span = rng.range(0.5, 4.0);
         let (x0, xend) = if back { (0.0, -span) } else { (0.0, span) };
-        let rtol = 10f64.powf(-rng.range(3.0, 9.0));
+        let mut rtol = 10f64.powf(-rng.range(3.0, 9.0));
+        // every sixth case: a stiff problem on an implicit method, so that steps with rejected or slowly converging
+        // Newton iterations are among those whose interpolant is examined
+        let (kind, method, x0, xend) = if case % 6 == 5 {
+            rtol = 10f64.powf(-rng.range(2.5, 5.0));
+            let k = *rng.pick(&[Kind::VdPStiff, Kind::Robertson, Kind::Stiff, Kind::VdPStiff]);
+            let te = match k { Kind::VdPStiff => rng.range(5.0, 900.0), Kind::Robertson => 10f64.powf(rng.range(0.0, 3.0)), _ => rng.range(0.5, 3.0) };
+            (k, if rng.chance(0.7) { Method::RADAU } else { Method::BDF }, 0.0, te)
+        } else { (kind, method, x0, xend) };
         let atol = rtol * 1e-2;
         let mut p = Prob::new(kind);
         let y0 = p.y0();
